@@ -39,6 +39,7 @@ func verif_dec_rawint(d sdk.Dec) math.Int { panic("verif") }
 func verif_catch(f func()) bool          { panic("verif") }
 func verif_knob(name string, v int64)    { panic("verif") }
 func verif_log(args ...interface{})      { panic("verif") }
+func verif_emit(name string, v interface{}) { panic("verif") }
 
 func verif_int_range(name, lo, hi string) math.Int                { panic("verif") }
 func verif_dec_range(name, lo, hi string) sdk.Dec                 { panic("verif") }
